@@ -273,11 +273,17 @@ def config_job(args):
         argreach = set()
         for a in snapargs:
             argreach |= set(reach_mutable(a))
+        reach1 = reach_mutable(r1)          # id -> object: the references keep the objects alive, so ids cannot be recycled by the second call
         mutate(r1, seen=set(argreach))
         try:
             r2 = call()
             ok = canon(r2) == s1 and [canon(a) for a in snapargs] == before
             why = "" if ok else "differs"
+            # two results of two calls own their mutable parts: an object reachable from both (and not from the arguments) lets a caller who edits one result
+            # change the other - whatever its current contents are (e.g. a dictionary kept in a default argument and refilled on every call)
+            common = [type(o).__name__ for i, o in reach_mutable(r2).items() if i in reach1 and i not in argreach]
+            out.append(("C13.results_disjoint", not common, f"disj:{name}:{n}:{conn}",
+                        f"{name} on {n}-{conn}: the results of two successive calls share mutable objects {common[:4]} (editing one result edits the other)", rp))
         except Exception as e:
             ok, why = False, f"raised {type(e).__name__}: {e}"
         out.append(("C13.mutation_then_call", ok, f"mut:{name}:{n}:{conn}", f"{name} on {n}-{conn}: after the caller mutated the earlier result, the same call {why}", rp))
